@@ -182,8 +182,7 @@ func executeRealUDP(mode string) (kind, detail string) {
 		time.Sleep(300 * time.Millisecond)
 		if err := connect(fmt.Sprintf("marker-%d", round+1)); err != nil {
 			if strings.HasPrefix(err.Error(), "slow:") {
-				// no new session although the server is up and reachable the whole time
-				return "no-reconnect|real-udp", fmt.Sprintf("%s: after session loss %d the next local connection was not served within bounded time (%v); the first connection through the same upstream entry had worked", mode, round, err)
+				return "slow", fmt.Sprintf("%s: after session loss %d: %v", mode, round, err)
 			}
 			return "no-reconnect|real-udp", fmt.Sprintf("%s: after session loss %d the next local connection failed: %v", mode, round, err)
 		}
